@@ -10,7 +10,9 @@ LEVEL = "exploration"
 RULE = (
     "Interleaved histories on a tree of up to 8 live solvers with branch weighted up (nested branches; query parent, add to child, "
     "re-query parent with the same query; simplify/downsize on one side; eval(n>1) on one side), for every exact frontend class "
-    "(Solver, SolverCacheless, SolverComposite, SolverReplacement, SolverHybrid), solver reuse off and on. Each live solver has its own "
+    "(Solver, SolverCacheless, SolverComposite, SolverReplacement, SolverHybrid), solver reuse off and on. A third of the cases are directed (single-group and spanning queries on the parent, branch, "
+    "narrowing / bridging / contradicting adds on one side with another branch over a still pending add, then the same queries on every "
+    "side in a generated order). Each live solver has its own "
     "brute-force model set, copied at branch time. A wrong answer triggers an *isolated replay*: the failing solver's own line of "
     "operations is re-run on a fresh solver with every operation on other solvers removed (the branch() calls on its path are kept); "
     "fails there too => attributed to C11/C12/C13 (counted, not reported here); passes there => another solver's operation changed "
@@ -133,7 +135,11 @@ def run_shard(shard, ctx):
             else:
                 ctx.fail(v[1], case, v[2])
 
-    hyp.run(sm.histories(GROUPS, max_steps=40), shard["n"], shard["hseed"], body, ctx)
+    n_dir = shard["n"] // 3
+    hyp.run(sm.histories(GROUPS, max_steps=40), shard["n"] - n_dir, shard["hseed"], body, ctx)
+    # directed: fill what branches share (backend solver, model caches, a composite's children and cached combinations), branch,
+    # change one side -- also branching again over a pending add --, ask every side the same queries in a generated order
+    hyp.run(sm.scenario_branch_isolation(), n_dir, shard["hseed"] + 7, body, ctx)
 
 
 def replay(case):
